@@ -1789,19 +1789,15 @@ error:
 	return STATE_ERROR;
 }
 
-DLLIMPORT int cfg_parse_fp(cfg_t *cfg, FILE *fp)
+/* parse a stream under the name the caller has put into cfg->filename */
+static int cfg_parse_stream(cfg_t *cfg, FILE *fp)
 {
 	int ret;
 
-	if (!cfg || !fp) {
+	if (!cfg || !fp || !cfg->filename) {
 		errno = EINVAL;
 		return CFG_PARSE_ERROR;
 	}
-
-	if (!cfg->filename)
-		cfg->filename = strdup("FILE");
-	if (!cfg->filename)
-		return CFG_PARSE_ERROR;
 
 	cfg->line = 1;
 	cfg_scan_fp_begin(fp);
@@ -1813,6 +1809,27 @@ DLLIMPORT int cfg_parse_fp(cfg_t *cfg, FILE *fp)
 		return CFG_PARSE_ERROR;
 
 	return CFG_SUCCESS;
+}
+
+DLLIMPORT int cfg_parse_fp(cfg_t *cfg, FILE *fp)
+{
+	char *fn;
+
+	if (!cfg || !fp) {
+		errno = EINVAL;
+		return CFG_PARSE_ERROR;
+	}
+
+	/* a stream has no name of its own: it must not go by the name of
+	 * whatever was parsed into this context before */
+	fn = strdup("FILE");
+	if (!fn)
+		return CFG_PARSE_ERROR;
+
+	free(cfg->filename);
+	cfg->filename = fn;
+
+	return cfg_parse_stream(cfg, fp);
 }
 
 static char *cfg_make_fullpath(const char *dir, const char *file)
@@ -1926,7 +1943,7 @@ DLLIMPORT int cfg_parse(cfg_t *cfg, const char *filename)
 	}
 #endif
 
-	ret = cfg_parse_fp(cfg, fp);
+	ret = cfg_parse_stream(cfg, fp);
 	fclose(fp);
 
 	return ret;
@@ -1965,7 +1982,7 @@ DLLIMPORT int cfg_parse_buf(cfg_t *cfg, const char *buf)
 		return CFG_SUCCESS;
 	}
 
-	ret = cfg_parse_fp(cfg, fp);
+	ret = cfg_parse_stream(cfg, fp);
 	fclose(fp);
 
 	return ret;
